@@ -72,6 +72,8 @@ type interpreter struct {
 	onceDone       map[*value]bool
 	crashArmed     bool
 	natives        map[string]func(args []string) string
+	mapRanges      int // ranges over maps with >= 2 entries started on this path
+	reverseRange   int // the mapRanges-th such range iterates in reverse insertion order (0 = none)
 }
 
 type deferred struct {
